@@ -395,16 +395,31 @@ Proof.
 Qed.
 
 (* currencies, pairs, quotes: the constructors of Model/FX.v cannot abort *)
-Definition ccy_shape (c : name) : Prop := str_bytes c = 3 /\ map ascii_lower c = c.
+Definition ccy_shape (c : name) : Prop := str_bytes c = 3 /\ ccy_lower c = c.
 Lemma ascii_lower_idem c : ascii_lower (ascii_lower c) = ascii_lower c.
 Proof. unfold ascii_lower. repeat match goal with |- context [if ?b then _ else _] => destruct b eqn:? end; lia. Qed.
+Lemma ccy_lower_cp_idem c : flat_map ccy_lower_cp (ccy_lower_cp c) = ccy_lower_cp c.
+Proof.
+  unfold ccy_lower_cp.
+  destruct (Z.leb_spec 65 c), (Z.leb_spec c 90); cbn [andb];
+    repeat (match goal with |- context [Z.eqb ?a ?b] => destruct (Z.eqb_spec a b) end; try lia);
+    cbn [flat_map app];
+    repeat (match goal with |- context [Z.leb ?a ?b] => destruct (Z.leb_spec a b) end; try lia);
+    cbn [andb app];
+    repeat (match goal with |- context [Z.eqb ?a ?b] => destruct (Z.eqb_spec a b) end; try lia);
+    cbn [app]; try reflexivity; try lia.
+Qed.
+Lemma ccy_lower_idem s : ccy_lower (ccy_lower s) = ccy_lower s.
+Proof.
+  unfold ccy_lower. induction s as [|c s IH]; [reflexivity|].
+  cbn [flat_map]. rewrite flat_map_app, ccy_lower_cp_idem, IH. reflexivity.
+Qed.
 Theorem ccy_try_new_spec s : ccy_try_new s <> Panic /\ forall c, ccy_try_new s = Ok c -> ccy_shape c.
 Proof.
   unfold ccy_try_new. split.
   - destruct (Z.eqb _ _); discriminate.
-  - intros c. destruct (Z.eqb (str_bytes (map ascii_lower s)) 3) eqn:E; [|discriminate].
-    intros [= <-]. split; [apply Z.eqb_eq; auto|].
-    rewrite map_map. apply map_ext. intros. apply ascii_lower_idem.
+  - intros c. destruct (Z.eqb (str_bytes (ccy_lower s)) 3) eqn:E; [|discriminate].
+    intros [= <-]. split; [apply Z.eqb_eq; auto|]. apply ccy_lower_idem.
 Qed.
 Definition pair_shape (p : fxpair) : Prop := ccy_shape (p0 p) /\ ccy_shape (p1 p) /\ p0 p <> p1 p.
 Theorem fxpair_try_new_spec l r :
